@@ -7,7 +7,11 @@ bytes incl. empty / NUL-only / NUL-terminated / 0xFF, Unicode strings incl.
 NUL and astral characters) x presentation per attribute (C order, Fortran
 order, strided view, transposed view, big-endian, safely-castable narrower
 dtype, NumPy scalar / 0-d array, Python int/float/list, caller re-using one
-buffer object for consecutive examples) x every applicable reader.
+buffer object for consecutive examples) x order of the keys of the example
+dict (declared order, reversed, rotated) x every applicable reader; at
+generated positions a malformed example (wrong shape of one attribute, or an
+array where bytes / str is declared) is offered first: the writer refuses it,
+the caller carries on, and everything read back still is what was written.
 Oracle (round trip): expected = the logical array (C order) cast safely to the
 declared dtype, as little-endian bytes.  fb: returned dtype == declared and
 bytes equal; npz: returned array must be safely castable to the declared dtype
@@ -165,6 +169,15 @@ def strategy_case(draw, tier):
         "attrs": attrs,
         "fp": draw(st.integers(1, 4)),
         "tf": draw(st.integers(0, 3)) == 0,
+        # container presentation: order of the keys of the example dict
+        # (0 = declared order, otherwise a rotation / reversal)
+        "order": draw(st.sampled_from([0, 0, 1, 2, 3])),
+        # attempted writes of a malformed example (position, attribute) which
+        # the writer refuses; the caller carries on with the next example
+        "bad": draw(st.one_of(
+            st.just([]), st.just([]),
+            st.lists(st.tuples(st.integers(0, 6), st.integers(0, 3)).map(list),
+                     min_size=1, max_size=2))),
     }
 
 
@@ -315,6 +328,36 @@ def compare(ctx, desc, fmt, attr, got, want: bytes, iface, what):
     return False
 
 
+def reorder(values: dict, order: int) -> dict:
+    """The same example in a dict whose keys come in another order."""
+    keys = list(values)
+    if order == 1:
+        keys = keys[::-1]
+    elif order == 2:
+        keys = keys[1:] + keys[:1]
+    elif order == 3:
+        keys = keys[-1:] + keys[:-1]
+    return {k: values[k] for k in keys}
+
+
+def attempt_malformed(filler, desc, values: dict, j: int) -> str:
+    """Try to write `values` with attribute j replaced by something of the
+    wrong shape (fixed-size attribute) or of the wrong kind (an array where
+    bytes / str is declared).  The caller catches the error and goes on."""
+    attr = desc["attrs"][j % len(desc["attrs"])]
+    bad = dict(values)
+    if attr["dtype"] in ("bytes", "str"):
+        bad[attr["name"]] = np.arange(3, dtype=np.uint8)
+    else:
+        dt = np.dtype(attr["dtype"])
+        bad[attr["name"]] = np.zeros(tuple(attr["shape"]) + (2,), dtype=dt)
+    try:
+        filler.write_example(values=bad, split="train")
+    except Exception:  # pylint: disable=broad-except
+        return "refused"
+    return "accepted"
+
+
 def run_case(case, ctx):
     from sedpack.io import Dataset
     fmt = case["fmt"]
@@ -336,6 +379,7 @@ def run_case(case, ctx):
         presentations = set()
         specials = False
         rejected = None
+        accepted_bad = False
         with ds.filler() as filler:
             for k in range(n):
                 values = {"id": np.int64(k)}
@@ -354,15 +398,31 @@ def run_case(case, ctx):
                                                [])
                             for i in range(0, len(a["values"][k]),
                                            2 * arr.dtype.itemsize))
+                values = reorder(values, case.get("order", 0))
+                for pos, j in case.get("bad", []):
+                    if pos == k:
+                        outcome = attempt_malformed(filler, desc, values, j)
+                        ctx.label("malformed-write=" + outcome)
+                        if outcome == "accepted":
+                            accepted_bad = True
+                if accepted_bad:
+                    break
                 try:
                     filler.write_example(values=values, split="train")
                 except Exception as exc:  # pylint: disable=broad-except
                     rejected = (k, exc)
                     break
                 expected[k] = exp
+        if accepted_bad:
+            # which writes must be refused is C18's property; without the
+            # refusal there is no expected content to compare with
+            ctx.reject("malformed-write-accepted:" + fmt)
+            return
+        if case.get("order", 0):
+            presentations.add("key-order")
         if rejected is not None:
             k, exc = rejected
-            if presentations <= {"c", "reuse", "scalar"}:
+            if presentations <= {"c", "reuse", "scalar", "key-order"}:
                 ctx.fail(
                     "accepts-basic", ("basic-write-rejected", fmt,
                                       type(exc).__name__),
